@@ -67,6 +67,7 @@ def code_dependencies_outputs(code: Sequence[ast.AST]) -> Tuple[Set[str], Set[st
     for node in code:
         temp_children = []
         children = []
+        body_completes = True
         if isinstance(node, (ast.While, ast.For, ast.If)):
             temp_children = (
                 [node.test] if isinstance(node, (ast.If, ast.While)) else [node.target, node.iter]
@@ -75,9 +76,13 @@ def code_dependencies_outputs(code: Sequence[ast.AST]) -> Tuple[Set[str], Set[st
             if any(core.is_blocking(child) for child in ast.walk(node)):
                 definite = False
 
-        elif isinstance(node, ast.With):
+        elif isinstance(node, (ast.With, ast.AsyncWith)):
             temp_children = tuple(node.items)
             children = [node.body]
+            # The context manager may swallow an exception that is raised in the middle of the
+            # body (contextlib.suppress, or any __exit__ that returns True), so what the body
+            # creates is only maybe created when the statement after the with is reached.
+            body_completes = False
 
         elif isinstance(node, (ast.Try, ast.ClassDef, ast.FunctionDef, ast.AsyncFunctionDef)):
             required_names.update(name.id for name in core.walk(node, ast.Name))
@@ -157,7 +162,9 @@ def code_dependencies_outputs(code: Sequence[ast.AST]) -> Tuple[Set[str], Set[st
         node_needed -= created_names
         node_needed -= temp_created
         node_needed |= temp_needed
-        (created_names if definite else maybe_created_names).update(node_created)
+        (created_names if definite and body_completes else maybe_created_names).update(
+            node_created
+        )
         required_names.update(node_needed)
 
     return created_names, maybe_created_names, required_names
